@@ -109,7 +109,11 @@ def unit_formulas():
     from . import c03
     px, py = F.PX, F.PY
     base = [('once', (1, 2), px), ('historically', (0, 2), F.X), ('eventually', (1, 2), px), ('always', (1, 1), F.X),
-            ('since', (1, 2), px, py), ('until', (0, 2), px, py), ('unless', (1, 2), px, py), ('always', (1, 2), ('eventually', (0, 1), F.X))]
+            ('since', (1, 2), px, py), ('until', (0, 2), px, py), ('unless', (1, 2), px, py), ('always', (1, 2), ('eventually', (0, 1), F.X)),
+            # the same operator nested in itself (op[a,b] op[c,d] p = op[a+c,b+d] p invites a collapsing evaluator), each level in its own notation
+            ('eventually', (0, 1), ('eventually', (1, 2), F.X)), ('always', (1, 1), ('always', (0, 2), px)), ('once', (0, 1), ('once', (1, 2), px)),
+            ('historically', (1, 2), ('historically', (0, 1), F.X)), ('eventually', (0, 1), ('eventually', (0, 1), ('eventually', (1, 1), px))),
+            ('once', (1, 2), ('historically', (0, 1), ('once', (0, 1), F.X))), ('since', (0, 1), ('once', (1, 2), px), ('historically', (0, 2), py))]
     return [(f, st) for f in base for st in c03.UNIT_STYLES]
 
 
